@@ -111,6 +111,10 @@ def _impl(tier, seed, search):
                 L.close('crm(int)', r[0], crm @ np.array(mi, float), TOL, sci, dict(v=vel, m=mi, form=form_), what='motion cross product with an integer-valued operand differs from the matrix form', sig='cross(int)')
                 L.close('crf(int)', r[1], -crm.T @ np.array(fi, float), TOL, sci, dict(v=vel, f=fi, form=form_), sig='cross(int)')
                 L.close('matmul(int)', r[2], crm @ np.array(mi, float), TOL, sci, dict(v=vel, m=mi, form=form_), sig='cross(int)')
+        ok, r = L.noraise('crf(momentum)', lambda: (SpatialVelocity(vel).cross(SpatialMomentum(frc)), SpatialVelocity(vel) @ SpatialMomentum(frc)), dict(v=vel, h=frc), 'velocity x* momentum')
+        if ok:
+            L.close('crf(momentum)', r[0].A, -crm.T @ frc, TOL, sv * float(np.max(np.abs(frc))), dict(v=vel, h=frc), what='force cross product applied to a momentum is not the negative transpose of the motion cross product', sig='crf:momentum')
+            L.close('crf(momentum) @', r[1].A, -crm.T @ frc, TOL, sv * float(np.max(np.abs(frc))), dict(v=vel, h=frc), sig='crf:momentum')
         ok, r = L.noraise('matmul', lambda: SpatialVelocity(vel) @ SpatialVelocity(m2), dict(v=vel, m=m2), 'SpatialVelocity @ SpatialVelocity')
         if ok: L.close('matmul', r.A, crm @ m2, TOL, sv * float(np.max(np.abs(m2))), dict(v=vel, m=m2))
         # inertia
